@@ -138,6 +138,13 @@ PROPS = {
         oracle='scatter list rebuilt from the size alone = bytes streamed, every backing page (data and page-table pages) listed exactly once, allocator balance zero after discard / after the writer thread wrote; captured writev() bytes per (fake) descriptor = interleaving of whole entries, each once, per thread in program order; nothing pending after close(); rotated descriptor closed once',
         assumptions=['page sizes 64/128/256 (page tables of 7/15/31 pointers); writev never returns short (the property does not quantify over short writes)'],
     ),
+    'C11': dict(
+        title='serialization: round trip, exact size, protobuf wire compat, hostile-input safe',
+        quick=[sq('sq_ser', ['--full-len', '2', '--reduced-len', '4'], budget=150), sq('sq_ser_dbg', ['--full-len', '2', '--reduced-len', '4'], budget=150)],
+        thorough=[sq('sq_ser', ['--full-len', '2', '--reduced-len', '6'], budget=2400), sq('sq_ser_dbg', ['--full-len', '2', '--reduced-len', '5'], budget=900)],
+        oracle='for every value of the alphabets: predicted size = bytes produced, parse through 10 presentations (string, array, chunked coded streams 1/2/3/7 bytes with and without an enclosing limit) = value (smart pointer to an empty encoding reads back null); protobuf TestMessage vs BABYLON_COMPATIBLE mirror both directions, all 24 field orders, unknown fields of every wire type at every position, absent fields keep values; ALL byte strings up to the bound into 15 target types under ASan+UBSan: no report, and accepted values serialise, parse back equal, second round is a fixed point',
+        assumptions=['byte strings: every string of length <= 2 over all 256 byte values and every string up to the stated length over a 16-byte schema alphabet (tags of fields 1-4 with all wire types, length bytes inside/at/past the end, continuation bytes)', 'NDEBUG and debug (wire-type checking) builds are both run', 'UBSan checks null and nonnull-attribute are off: babylon binds a reference to a null table in a default iterator and passes (nullptr, 0) to memcpy through protobuf, both benign'],
+    ),
 }
 
 SEQX_ASSUMPTIONS = [
